@@ -40,6 +40,7 @@ TOP, BOT = ["acute", "grave", "macron"], ["cedilla", "ogonek", "dotbelow"]
 MAT = {"MAT1": ["acute", "grave"], "MAT2": ["cedilla", "ogonek"]}
 SCRIPTS = {"latn": ["TRK ", "NLD "], "cyrl": ["SRB "], "grek": []}
 KEYWORDS = set(KW)
+VERTICAL = ["vkrn", "vpal", "vhal", "valt"]
 _ANY = ("single", "multiple", "ligature")
 FAMILY = {"single": _ANY, "multiple": _ANY, "ligature": _ANY, "chain": ("chain",), "rchain": ("rchain",),
           "alternate": ("alternate",), "spos": ("spos",), "ppos": ("ppos",), "curs": ("curs",), "mbase": ("mbase",),
@@ -92,6 +93,7 @@ class FeaGen(object):
         self.anchordefs = {}
         self.vrdefs = {}
         self.inferred = {}     # glyph -> class from pos base/ligature/mark statements
+        self.vertical = False  # inside a vertical feature block a bare number means YAdvance
 
     # ------------------------------------------------------------ text helpers
     def g(self, name):
@@ -187,13 +189,20 @@ class FeaGen(object):
         nz = lambda: rnd.choice([-1, 1]) * rnd.randrange(1, 120)
         if r < 0.45:
             v = nz()
-            return str(v), (0, 0, v, 0)
-        if allow_named and r < 0.6 and self.level >= 1:
+            # a bare number is XAdvance, or YAdvance inside a vertical feature (vkrn, vpal, vhal, valt)
+            return str(v), ((0, 0, 0, v) if self.vertical else (0, 0, v, 0))
+        if allow_named and r < (0.75 if self.vertical else 0.6) and self.level >= 1:
             if not self.vrdefs or rnd.random() < 0.4:
                 name = "VR%d" % (len(self.vrdefs) + 1)
-                v = (rnd.choice([0, nz()]), rnd.choice([0, nz()]), nz(), 0)
+                if rnd.random() < 0.4:
+                    # format A at file level: always an XAdvance, wherever it is referenced
+                    v = (0, 0, nz(), 0)
+                    self.pre.append("valueRecordDef %d %s;" % (v[2], name))
+                    self.stmt_kinds.add("valueRecordDef-formatA")
+                else:
+                    v = (rnd.choice([0, nz()]), rnd.choice([0, nz()]), nz(), 0)
+                    self.pre.append("valueRecordDef <%d %d %d %d> %s;" % (v + (name,)))
                 self.vrdefs[name] = v
-                self.pre.append("valueRecordDef <%d %d %d %d> %s;" % (v + (name,)))
                 self.stmt_kinds.add("valueRecordDef")
             name = rnd.choice(sorted(self.vrdefs))
             return "<%s>" % name, self.vrdefs[name]
@@ -1064,6 +1073,9 @@ class FeaGen(object):
         # features
         ntags = rnd.randrange(2, 5)
         tags = ["tst%d" % (i + 1) for i in range(ntags)]
+        if rnd.random() < 0.3:
+            tags[rnd.randrange(ntags)] = rnd.choice(VERTICAL)
+            self.stmt_kinds.add("vertical-feature")
         feat = {}   # (script, lang, tag) -> {"GSUB": [...], "GPOS": [...]}
 
         def reg(cur, tag, lk):
@@ -1072,6 +1084,7 @@ class FeaGen(object):
 
         alt_values = {}
         for tag in tags:
+            self.vertical = tag in VERTICAL
             out = ["feature %s {" % tag]
             cur = list(self.langsys)
             flag_known = ""      # lookupflag text in force, None = must restate
@@ -1162,6 +1175,7 @@ class FeaGen(object):
                             items(rnd.randrange(1, 3), cur)
             out.append("} %s;" % tag)
             self.blocks.append(out)
+            self.vertical = False
 
         # GDEF table block
         gdef_block = []
